@@ -12,7 +12,7 @@ from .. import repo
 READY = True
 LEVEL = 'exploration'
 TECHNIQUE = 'configuration-sweep runtime monitoring: the real serializer / translator run in fresh subprocesses under different PYTHONHASHSEED values and after different in-process serialisation histories; file digests form the recorded journal and must be identical'
-LEVEL_TEXT = ('Shipped and generated proof modules are serialised (binary and pretty, optimised and not) in fresh processes under 8 (thorough 32) hash seeds, '
+LEVEL_TEXT = ('Shipped and generated proof modules are serialised (binary and pretty, optimised and not) in fresh processes under 8 (thorough 16) hash seeds, '
               'the Metamath benchmarks and generated databases are translated under the same seeds, and within one process module A is serialised alone, after '
               'another module B, twice in a row and again after B; all digests of A\'s six files must coincide.')
 LEVEL_NOTE = 'Trusted: sha256 of the emitted files; generators are functions of VERIF_SEED only (no set iteration).'
@@ -23,7 +23,7 @@ RULE = ('A case is one input (module index or .mm file) x the set of configurati
         'configurations that produced at least one non-empty file.')
 ASSUMPTIONS = ['fresh subprocess per (batch, hash seed); determinism across machines/Python versions is out of scope']
 FLOORS = {'quick': {'module_inputs': 60, 'hash_seeds': 8, 'history_cases': 40, 'translate_inputs': 2, 'inputs_with_memoisation': 20, 'mm_multi_var_targets': 10, 'mm_multi_variable_axiom_inputs': 20}}
-FLOORS['thorough'] = dict(FLOORS['quick'], module_inputs=1000, hash_seeds=32, history_cases=500)
+FLOORS['thorough'] = dict(FLOORS['quick'], module_inputs=500, hash_seeds=16, history_cases=300)
 
 MM_SKIP = {'transfer.mm', 'transfer5000.mm', 'transfer-largest-slice.mm', 'disjointness-alt-lemma.mm', 'svm5.mm', 'perceptron.mm', 'impreflex.mm', 'impreflex-compressed.mm'}
 
@@ -65,10 +65,10 @@ def run_worker(args, hashseed, timeout=1800):
 
 def shard(ctx):
     sc = ctx.mkscratch()
-    seeds = list(range(8)) if ctx.quick else list(range(32))
+    seeds = list(range(8)) if ctx.quick else list(range(16))
     ctx.count('hash_seeds', len(seeds) if ctx.shard == 0 else 0)
     # ---- modules: each shard owns a slice of inputs and sweeps all hash seeds over it
-    per = 6 if ctx.quick else 80
+    per = 6 if ctx.quick else 40
     first = ctx.shard * per
     results = {}
     for hs in seeds:
@@ -146,7 +146,7 @@ def shard(ctx):
     mine = [f + '::goal' for i, f in enumerate(files) if i % ctx.nshards == ctx.shard] + [f'{f}::{t}' for f, t in gen_files]
     if mine:
         tr = {}
-        for hs in seeds[:4] if ctx.quick else seeds[:16]:
+        for hs in seeds[:4] if ctx.quick else seeds[:8]:
             try:
                 tr[hs] = run_worker(['translate', sc / f't{hs}', *mine], hs, timeout=3000)
             except Exception as ex:
